@@ -496,7 +496,6 @@ Definition pcore (m : nat) (pf : parser ex) : parser ex := fun ts =>
       | Some _ => None
       | None => match r with TSym RB :: r' => Some (EMat [], r') | _ => None end
       end
-  | TSym LC :: TSym Colon :: TSym RC :: r => Some (EMap [], r)
   | TSym LC :: r =>
       match plist1 m sep_comma_sp (pbind m pf) r with
       | Some (bs, TSym RC :: r') => Some (ERec bs, r')
@@ -507,13 +506,19 @@ Definition pcore (m : nat) (pf : parser ex) : parser ex := fun ts =>
               match plist1 m sep_comma_sp pe r with
               | Some (es, TSym RC :: r') => Some (ESet es, r')
               | Some _ => None
-              | None => match r with TSym RC :: r' => Some (ESet [], r') | _ => None end
+              | None =>
+                  match r with
+                  | TSym RC :: r' => Some (ESet [], r')
+                  | TSym Colon :: TSym RC :: r' => Some (EMap [], r')
+                  | _ => None
+                  end
               end
           end
       end
-  | TSym Colon :: TId a :: TSym LP :: r =>
-      match pe r with Some (e, TSym RP :: r') => Some (ETupS a e, r') | _ => None end
-  | TSym Colon :: TId a :: r => with_kind (ELit (LAtom a)) r
+  | TSym Colon :: TId a :: r =>
+      if hd_is t_lp r then
+        match pe (List.tl r) with Some (e, TSym RP :: r') => Some (ETupS a e, r') | _ => None end
+      else with_kind (ELit (LAtom a)) r
   | TNum s :: r => with_kind (ELit (LNum s)) r
   | TStr s :: r => with_kind (ELit (LStr s)) r
   | TBool b :: r => with_kind (ELit (LBool b)) r
@@ -586,25 +591,28 @@ Fixpoint ppat (n : nat) : parser pat := fun ts =>
   match n with
   | 0 => None
   | S m =>
+      let pit := match pitem_p ts with Some (i, r) => Some (PItem i, r) | None => None end in
       match ts with
-      | TSym Colon :: TId a :: TSym LP :: r =>
-          match plist1 m sep_comma_sp (ppat m) r with
-          | Some (ps, TSym RP :: r') => Some (PTupS a ps, r')
-          | _ => None
-          end
       | TSym LP :: r =>
           match plist1 m sep_comma_sp (ppat m) r with
           | Some (ps, TSym RP :: r') => Some (PTup ps, r')
           | _ => None
           end
-      | TSym LB :: TSym RB :: r => Some (PArr [] ANone, r)
       | TSym LB :: r =>
           match plist1 m sep_sp papart r with
           | Some (l, TSym RB :: r') =>
               match assemble l with Some (pre, tl) => Some (PArr pre tl, r') | None => None end
-          | _ => None
+          | Some _ => None
+          | None => match r with TSym RB :: r' => Some (PArr [] ANone, r') | _ => None end
           end
-      | _ => match pitem_p ts with Some (i, r) => Some (PItem i, r) | None => None end
+      | TSym Colon :: TId a :: r =>
+          if hd_is t_lp r then
+            match plist1 m sep_comma_sp (ppat m) (List.tl r) with
+            | Some (ps, TSym RP :: r') => Some (PTupS a ps, r')
+            | _ => None
+            end
+          else pit
+      | _ => pit
       end
   end.
 
@@ -736,15 +744,7 @@ Fixpoint cvt_args (l : list (option string * ex)) : option (list (string * kind)
   end.
 
 (* statement: comment and enum by their first token; otherwise read an expression, then decide by what follows it *)
-Definition pstmt (n : nat) : parser stmt := fun ts =>
-  match ts with
-  | TCom s :: r => Some (SComment s, r)
-  | TSym (SOp OLt) :: TId nm :: TSym (SOp OGt) :: TSp :: TSym Define :: TSp :: r =>
-      match plist1 n sep_bar pvariant r with
-      | Some (vs, r') => Some (SEnum nm vs, r')
-      | None => None
-      end
-  | _ =>
+Definition pstmt_main (n : nat) : parser stmt := fun ts =>
   let '(mut, ts1) := match ts with TSym Tilde :: r => (true, r) | _ => (false, ts) end in
   match pexpr n ts1 with
   | Some (e, TSp :: TSym Define :: TSp :: r2) =>
@@ -781,7 +781,17 @@ Definition pstmt (n : nat) : parser stmt := fun ts =>
       | _ => None
       end
   | _ => if mut then None else match prhs n ts1 with Some (v, r) => Some (SExpr v, r) | None => None end
-  end
+  end.
+
+Definition pstmt (n : nat) : parser stmt := fun ts =>
+  match ts with
+  | TCom s :: r => Some (SComment s, r)
+  | TSym (SOp OLt) :: TId nm :: TSym (SOp OGt) :: TSp :: TSym Define :: TSp :: r =>
+      match plist1 n sep_bar pvariant r with
+      | Some (vs, r') => Some (SEnum nm vs, r')
+      | None => None
+      end
+  | _ => pstmt_main n ts
   end.
 
 Definition pline (n : nat) : parser stmt := fun ts =>
